@@ -508,9 +508,15 @@ class CommitHandler(processor.CommitHandler):
         result = {}
         if props is not None:
             for name, value in props.items():
+                # The stream parser hands property names and values over as
+                # bytes; revision properties are text.
+                if isinstance(name, bytes):
+                    name = self._utf8_decode("property name", name)
                 if value is None:
                     self.warning(f"converting None to empty string for property {name}")
                     result[name] = ""
+                elif isinstance(value, bytes):
+                    result[name] = self._utf8_decode(f"property {name}", value)
                 else:
                     result[name] = value
         return result
